@@ -6,8 +6,9 @@
   group: a gate acts row-wise by a map that is an automorphism of the signed n-qubit Pauli group (it respects the signed
   product and the commutation form) and sends the one-site generators to their textbook images — an automorphism of
   the Pauli group is determined by the images of X_j, Z_j, so this pins the gate's action on every row, signs
-  included, for every n.  (The identification of that group semantics with Hilbert-space semantics is the cited
-  tensor-lifting fact of DESIGN §7; the correspondence run additionally checks it against a dense simulator, n ≤ 5.)
+  included, for every n.  (The identification of that group semantics with Hilbert-space semantics — formerly the cited
+  tensor-lifting fact of DESIGN §7 — is proved in the Hilbert-space sections below; the correspondence run additionally checks it
+  against a dense simulator, n ≤ 5.)
 
   §4b (state half): for every operation — measurement, reset, insertion, removal, partial trace, swap, tensor — the
   stabilizer GROUP of the result is given in terms of the group of the input, and `history_tracks_state` chains these
@@ -250,7 +251,8 @@ theorem insert_spec (t : Tab) (p : Nat) (hp : p ≤ t.n) :
   theorem says which rows are in the group after an operation in terms of the group before it; `history_tracks_state`
   chains them along any history (refinement of the abstract semantics `specOp`). Hypotheses: the tableau is valid and
   its stabilizer rows carry no imaginary phase (`StabReal` — preserved by every operation, `history_stab_real`).
-  The identification of the group semantics with Hilbert-space semantics stays the cited tensor-lifting fact. -/
+  The identification of the group semantics with Hilbert-space semantics (formerly the cited tensor-lifting fact) is proved in the
+  Hilbert-space sections below (`op_tracks_density_matrix`, `history_tracks_density`, …). -/
 section StateHalf
 open Graphiq.TabSpec
 
@@ -1453,7 +1455,7 @@ example : rho 2 (STab.ofTab (Tab.ket0 2)) * rho 2 (STab.ofTab (Tab.ket1 2)) = 0 
     * `Orth A B` (some `P ∈ A` with `−P ∈ B`) ⇒ `tr(ρ_a ρ_b) = 0`;
     * otherwise `tr(ρ_a ρ_b) = commonCount A B / 2^n` — the brute-force executable specification of
       `Model/OverlapSpec.lean` (the quantity the C05 harness compares with graphiq's `fidelity`) is the Hilbert-space overlap;
-    * otherwise, with `d` the rank of the common subgroup (`OverlapDim`, the `n − e` of `inner_product_exponent_partial`):
+    * otherwise, with `d` the rank of the common subgroup (`OverlapDim`, the `n − e` of `C05.inner_product_exponent`):
       `d ≤ n` and `tr(ρ_a ρ_b) = 2^{-(n-d)}`;
     * for kets `ρ_a = |ψ⟩⟨ψ|`, `ρ_b = |φ⟩⟨φ|` (which exist, `stabilizer_state_is_ket`): `tr(ρ_a ρ_b) = |⟨ψ|φ⟩|²`. -/
 theorem stabilizer_state_overlap (a b : Tab) (hn : a.n = b.n) (va : a.Valid) (ra : a.StabReal) (vb : b.Valid)
